@@ -5,5 +5,8 @@
 int check_failures = 0; const char* check_first = 0;
 void __CPROVER_assert(int c, const char* m) { if (!c) { if (!check_failures) check_first = m; check_failures++; } }
 void __CPROVER_assume(int c) { if (!c) { if (!check_failures) check_first = "ASSUME(0) reached"; check_failures++; } }
+#ifndef WS_HEADER
+void ws_check(void* p) { (void)p; }   /* write-set instrumentation is a no-op outside CBMC */
+#endif
 #endif
 #endif
